@@ -71,11 +71,12 @@ def write_custom_qm_csv(root, codec, matrix="0 1 1 2"):
             done = True
     if not done:
         raise RuntimeError("could not set quantization_matrix of %s in the sample CSV" % codec)
-    # a second configuration: the same column made LOSSLESS (no picture_bytes) under the name <codec>-lossless
+    # a second configuration: the same column made LOSSLESS (no picture_bytes) and given another pixel aspect ratio
+    # (same frame size), under the name <codec>-lossless
     if col is not None:
         for r in rows:
             if r and len(r) > col and not r[0].startswith("#"):
-                r.append({"name": codec + "-lossless", "lossless": "TRUE", "picture_bytes": ""}.get(r[0], r[col]))
+                r.append({"name": codec + "-lossless", "lossless": "TRUE", "picture_bytes": "", "pixel_aspect_ratio_numer": "4", "pixel_aspect_ratio_denom": "3"}.get(r[0], r[col]))
             elif r:
                 r.append("")
     out = os.path.join(root, "codec_features_custom_qm.csv")
@@ -858,12 +859,15 @@ def run(ctx):
     with concurrent.futures.ThreadPoolExecutor(ctx.pick(14, 16)) as pool:
         f_serial = [pool.submit(serial_job, (os.path.join(root, "serial%d" % s), codec, s)) for s in serial_seeds]
         f_lossless = [pool.submit(serial_job, (os.path.join(root, "lossless%d" % s), codec + "-lossless", s)) for s in (0, gen_seed)]
+        # both configurations in ONE serial run (one process generates for one configuration after the other)
+        f_joint = pool.submit(serial_job, (os.path.join(root, "joint"), "%s|%s-lossless" % (codec, codec), 0))
         f_ex = [pool.submit(extract_worker, (i, codes[i], exroot, 0)) for i in sorted(allw, key=lambda i: i in light)]
         f_runs = [pool.submit(run_schedule, s) for s in specs]
         serials = [f.result() for f in f_serial]
         exl = sorted([f.result() for f in f_ex], key=lambda r: r["idx"])
         runs = [f.result() for f in f_runs]
         lossless = [f.result() for f in f_lossless]
+        joint = f_joint.result()
     ex = {r["idx"]: r for r in exl}  # global worker index -> extraction
 
     ref = serials[0]["tree"]
@@ -909,6 +913,14 @@ def run(ctx):
     lrecords, lalarms, ldis, lby = judge_runs(ctx, [lrun], lossless[0]["tree"], lambda r: None, "trace validation of the repeated serial run of the lossless configuration (TestCaseGenTrace)")
     report_alarms(ctx, lalarms, lrecords, lby, codec + "-lossless", gen_seed, names)
     dis = dis + ldis
+    # the joint serial run must produce exactly the union of the two single-configuration serial runs
+    union = dict(lossless[0]["tree"])
+    union.update(ref)
+    tid[0] += 1
+    jrun = {"events": [{"tid": tid[0], "ev": "begin", "kind": "serial:joint", "n": 1, "par": 1}, {"tid": tid[0], "ev": "start", "w": 1}, {"tid": tid[0], "ev": "end", "w": 1, "rc": joint["rc"]}], "tree": joint["tree"], "errs": {1: joint["err"]}, "spec": {"tid": tid[0], "kind": "serial:joint", "members": [0], "par": 1, "seeds": [0], "serial_seed": 0, "codec": "%s|%s-lossless" % (codec, codec)}}
+    jrecords, jalarms, jdis, jby = judge_runs(ctx, [jrun], union, lambda r: None, "trace validation of the serial run over both configurations against the union of the single-configuration runs (TestCaseGenTrace)")
+    report_alarms(ctx, jalarms, jrecords, jby, "%s|%s-lossless" % (codec, codec), gen_seed, names)
+    dis = dis + jdis
 
     # --- the interleaving model on the extracted operation lists
     fine = not ctx.quick
@@ -1107,7 +1119,14 @@ def replay(case):
     sr = serial_job((os.path.join(root, "serial", "s"), codec, 0))
     ref = sr["tree"]
     members = case["members"]
-    if case["kind"].startswith("serial"):
+    if case["kind"] == "serial:joint":
+        a, b = codec.split("|")
+        ref = dict(serial_job((os.path.join(root, "serial", "b"), b, 0))["tree"])
+        ref.update(serial_job((os.path.join(root, "serial", "a"), a, 0))["tree"])
+        s2 = serial_job((os.path.join(root, "serial", "t"), codec, 0))
+        ev = [{"tid": 1, "ev": "begin", "kind": case["kind"], "n": 1, "par": 1}, {"tid": 1, "ev": "start", "w": 1}, {"tid": 1, "ev": "end", "w": 1, "rc": s2["rc"]}]
+        recs = ev + [tree_event(1, s2["tree"], ref)]
+    elif case["kind"].startswith("serial"):
         s2 = serial_job((os.path.join(root, "serial", "t"), codec, case["serial_seed"]))
         ev = [{"tid": 1, "ev": "begin", "kind": case["kind"], "n": 1, "par": 1}, {"tid": 1, "ev": "start", "w": 1}, {"tid": 1, "ev": "end", "w": 1, "rc": s2["rc"]}]
         recs = ev + [tree_event(1, s2["tree"], ref)]
